@@ -162,6 +162,15 @@ func startsStatement(t token.Type) bool {
 //@   props C02 C03 C05
 //@   modifies *
 
+// The parser's levels and the printer's levels are the same classification (the two constant blocks and the two
+// tables are maintained by hand in two packages).
+func lemma_levels_agree(t token.Type) {}
+
+//@ func lemma_levels_agree
+//@   props C03 C02
+//@   ensures [tables.agree@C03] jsLevel(t) == ast.AstLevel(t)
+//@   ensures [constants.agree@C03] LOWEST == ast.PrecedenceLowest && ASSIGNMENT == ast.PrecedenceAssignment && LOGICAL_OR == ast.PrecedenceLogicalOr && LOGICAL_AND == ast.PrecedenceLogicalAnd && EQUALITY == ast.PrecedenceEquality && COMPARISON == ast.PrecedenceComparison && SUM == ast.PrecedenceSum && PRODUCT == ast.PrecedenceProduct && UNARY == ast.PrecedenceUnary && POSTFIX == ast.PrecedencePostfix && CALL == ast.PrecedenceCall && MEMBER == ast.PrecedenceMember
+
 // ---- slot contracts: what every function stored in the parser's function-typed fields obeys ----
 
 func slotStmtFn(p *Parser) ast.Statement                        { return nil }
@@ -216,6 +225,9 @@ func slotInfixFn(p *Parser, left ast.Expression) ast.Expression { return nil }
 //@   props C04 C11 C16
 //@   abstract
 //@   use parseFrame
+
+// The context stack is exclusively owned by its field: PopContext reslices it and PushContext appends in place.
+//@ owned Parser.contextStack
 
 //@ fieldcontract Parser.statementParseFn parser.slotStmtFn
 //@ fieldcontract Parser.expressionParseFn parser.slotExprFn
